@@ -112,6 +112,17 @@ func U64Range(name string, lo, hi uint64) uint64 {
 	return raw(name, 64, true, lo, hi, false)
 }
 
+// ByteIn returns a byte drawn from alphabet (one constraint, no forking, under the engine).
+func ByteIn(name string, alphabet string) byte {
+	if len(alphabet) == 0 {
+		panic(assumeFailed{})
+	}
+	if cur != nil && cur.Mode == "replay" {
+		return byte(raw(name, 8, false, 0, 0, false))
+	}
+	return alphabet[raw(name, 64, true, 0, uint64(len(alphabet)-1), false)]
+}
+
 // Choice returns a value in [0,n) that is concrete on every explored path.
 func Choice(name string, n int) int {
 	if n <= 0 {
